@@ -326,6 +326,7 @@ type dbEnv struct {
 	d             *db.DB
 	super         db.Caller
 	callerObjs    map[int]db.Caller
+	hung          bool // a call on the live handle never returned
 }
 
 func newDBEnv(dir string) (*dbEnv, error) {
@@ -490,7 +491,21 @@ func (e *dbEnv) observeState(o *stepObs) {
 		e.sink.mu.Lock()
 		e.sink.quiet = true
 		e.sink.mu.Unlock()
-		live, err := dumpVia(e.d, e.super)
+		var live []secDump
+		var err error
+		dumped := make(chan struct{})
+		go func() {
+			defer close(dumped)
+			live, err = dumpVia(e.d, e.super)
+		}()
+		select {
+		case <-dumped:
+		case <-time.After(dbCallTimeout):
+			// the handle no longer answers (a lock the previous call kept): nothing more can be asked of it
+			e.hung = true
+			o.Note += "hang: the handle did not answer a list call within " + dbCallTimeout.String() + " after this call; "
+			live, err = nil, errors.New("the handle did not answer (deadlock)")
+		}
 		e.sink.mu.Lock()
 		e.sink.quiet = false
 		e.sink.mu.Unlock()
@@ -503,7 +518,9 @@ func (e *dbEnv) observeState(o *stepObs) {
 			o.Live = live
 		}
 	}
-	o.Gen = e.d.WriteGen()
+	if !e.hung {
+		o.Gen = e.d.WriteGen()
+	}
 	// 2. the file, reopened with the same key in a second handle; opening must not write
 	h0, i0 := fileHash(e.path), inodeOf(e.path)
 	d2, err := db.Open(e.path, e.kek.inner, audit.New(io.Discard))
@@ -562,8 +579,17 @@ func (e *dbEnv) observeState(o *stepObs) {
 }
 
 // exec runs one step on the live database.
+const dbCallTimeout = 4 * time.Second // database calls take milliseconds; a call that is still out after this is deadlocked
+
+var hungHistories int // histories of this run that ended in a deadlocked handle
+
 func (e *dbEnv) exec(callers []DBCaller, st DBStep) stepObs {
 	var o stepObs
+	if e.hung {
+		o.Res = resObs{Class: "other", Err: "skipped: an earlier call never returned"}
+		o.LiveKind = "na"
+		return o
+	}
 	c := mkCaller(DBCaller{ID: -1})
 	if st.Caller >= 0 && st.Caller < len(callers) {
 		// one db.Caller value per caller for the whole history (an embedding program keeps its identities):
@@ -635,76 +661,90 @@ func (e *dbEnv) exec(callers []DBCaller, st DBStep) stepObs {
 			}
 		}()
 	}
-	func() {
-		defer func() {
-			if p := recover(); p != nil {
-				o.Res = resObs{Class: "other", Err: fmt.Sprintf("PANIC: %v", p)}
-				o.Note += "panic; "
-				err = nil
+	callDone := make(chan struct{})
+	go func() {
+		defer close(callDone)
+		func() {
+			defer func() {
+				if p := recover(); p != nil {
+					o.Res = resObs{Class: "other", Err: fmt.Sprintf("PANIC: %v", p)}
+					o.Note += "panic; "
+					err = nil
+				}
+			}()
+			switch st.Kind {
+			case "list":
+				var infos []*api.SecretInfo
+				infos, err = e.d.List(c)
+				if err == nil {
+					o.Res = resObs{Class: "list"}
+					for _, in := range infos {
+						o.Res.List = append(o.Res.List, infoToDump(in))
+					}
+					keptList = infos
+				}
+			case "info":
+				var in *api.SecretInfo
+				in, err = e.d.Info(c, name)
+				if err == nil {
+					keptInfo = in
+					o.Res = resObs{Class: "info", Act: uint64(in.ActiveVersion)}
+					for _, v := range in.Versions {
+						o.Res.Vers = append(o.Res.Vers, uint64(v))
+					}
+				}
+			case "get", "getcond", "getver":
+				var sv *api.SecretValue
+				switch st.Kind {
+				case "get":
+					sv, err = e.d.Get(c, name)
+				case "getcond":
+					sv, err = e.d.GetConditional(c, name, api.SecretVersion(st.Ver))
+				default:
+					sv, err = e.d.GetVersion(c, name, api.SecretVersion(st.Ver))
+				}
+				if err == nil {
+					o.Res = resObs{Class: "val", Ver: uint64(sv.Version), Val: valueToken(sv.Value, maxValueToken)}
+					scribble(sv.Value) // the caller overwrites what it was handed: the store must not follow it
+				}
+			case "put":
+				var v api.SecretVersion
+				buf := valueBytes(st.Val)
+				v, err = e.d.Put(c, name, buf)
+				scribble(buf) // the caller reuses its buffer: what was stored must not follow it
+				if err == nil {
+					o.Res = resObs{Class: "ver", Ver: uint64(v)}
+				}
+			case "activate":
+				err = e.d.Activate(c, name, api.SecretVersion(st.Ver))
+				if err == nil {
+					o.Res = resObs{Class: "ok"}
+				}
+			case "delver":
+				err = e.d.DeleteVersion(c, name, api.SecretVersion(st.Ver))
+				if err == nil {
+					o.Res = resObs{Class: "ok"}
+				}
+			case "del":
+				err = e.d.Delete(c, name)
+				if err == nil {
+					o.Res = resObs{Class: "ok"}
+				}
+			default:
+				fatal("unknown op kind %q", st.Kind)
 			}
 		}()
-		switch st.Kind {
-		case "list":
-			var infos []*api.SecretInfo
-			infos, err = e.d.List(c)
-			if err == nil {
-				o.Res = resObs{Class: "list"}
-				for _, in := range infos {
-					o.Res.List = append(o.Res.List, infoToDump(in))
-				}
-				keptList = infos
-			}
-		case "info":
-			var in *api.SecretInfo
-			in, err = e.d.Info(c, name)
-			if err == nil {
-				keptInfo = in
-				o.Res = resObs{Class: "info", Act: uint64(in.ActiveVersion)}
-				for _, v := range in.Versions {
-					o.Res.Vers = append(o.Res.Vers, uint64(v))
-				}
-			}
-		case "get", "getcond", "getver":
-			var sv *api.SecretValue
-			switch st.Kind {
-			case "get":
-				sv, err = e.d.Get(c, name)
-			case "getcond":
-				sv, err = e.d.GetConditional(c, name, api.SecretVersion(st.Ver))
-			default:
-				sv, err = e.d.GetVersion(c, name, api.SecretVersion(st.Ver))
-			}
-			if err == nil {
-				o.Res = resObs{Class: "val", Ver: uint64(sv.Version), Val: valueToken(sv.Value, maxValueToken)}
-				scribble(sv.Value) // the caller overwrites what it was handed: the store must not follow it
-			}
-		case "put":
-			var v api.SecretVersion
-			buf := valueBytes(st.Val)
-			v, err = e.d.Put(c, name, buf)
-			scribble(buf) // the caller reuses its buffer: what was stored must not follow it
-			if err == nil {
-				o.Res = resObs{Class: "ver", Ver: uint64(v)}
-			}
-		case "activate":
-			err = e.d.Activate(c, name, api.SecretVersion(st.Ver))
-			if err == nil {
-				o.Res = resObs{Class: "ok"}
-			}
-		case "delver":
-			err = e.d.DeleteVersion(c, name, api.SecretVersion(st.Ver))
-			if err == nil {
-				o.Res = resObs{Class: "ok"}
-			}
-		case "del":
-			err = e.d.Delete(c, name)
-			if err == nil {
-				o.Res = resObs{Class: "ok"}
-			}
-		default:
-			fatal("unknown op kind %q", st.Kind)
-		}
 	}()
+	select {
+	case <-callDone:
+	case <-time.After(dbCallTimeout):
+		// the call never returned (a lock kept, a wait nobody ends): the handle is unusable from here on
+		e.hung = true
+		o.Res = resObs{Class: "other", Err: "HANG: the call did not return within " + dbCallTimeout.String()}
+		o.Note += "hang; "
+		o.LiveKind = "na"
+		return o
+	}
 	if err != nil {
 		o.Res = resObs{Class: classify(err), Err: err.Error()}
 	}
